@@ -665,6 +665,64 @@ J_in_words(e) ==
        ELSE V("non-empty", Len(p.v) > 0, "non-empty") \o V("placeholders-substituted", ~Has(p.v, 123) /\ ~Has(p.v, 125), "no { }")
             \o (IF want = <<>> THEN <<>> ELSE V("words", p.v = want, want)))
 
+\* ---- C11 -----------------------------------------------------------------------------
+\* accessors the spec models; every other accessor is judged by equality with the native twin only
+J_native_acc(e) ==
+  LET x == e.pre[1]  p == e.post IN
+  IF x.k = "dt" THEN
+     LET s == DT(x.z, x.w, x.f)  w == x.w  n == Ord(w[1], w[2], w[3])
+         aware == ~IsNaive(s)  off == OffOf(s)
+         ic == IsoCal(n)
+         uw == IF aware THEN WallOf(InstOf(s)) ELSE w
+         un == Ord(uw[1], uw[2], uw[3])
+     IN R(<<"dt", ClassOf(s), B(s.f = 1), (IF aware THEN (IF s.z.n = "" THEN "fixed" ELSE "zone") ELSE "naive")>>,
+          V("isoformat", p.iso = IsoFormat(w, aware, off, cT), IsoFormat(w, aware, off, cT))
+          \o V("str", p.str = IsoFormat(w, aware, off, cSp), IsoFormat(w, aware, off, cSp))
+          \o V("toordinal", p.ord = n, n) \o V("weekday", p.wd = Weekday(n) - 1, Weekday(n) - 1)
+          \o V("isoweekday", p.iwd = Weekday(n), Weekday(n)) \o V("isocalendar", p.isocal = ic, ic)
+          \o V("timetuple", SubSeq(p.tt, 1, 8) = <<w[1], w[2], w[3], w[4], w[5], w[6], Weekday(n) - 1, DayOfYear(w[1], w[2], w[3])>>, "fields, weekday, yday")
+          \o V("utctimetuple", SubSeq(p.utt, 1, 8) = <<uw[1], uw[2], uw[3], uw[4], uw[5], uw[6], Weekday(un) - 1, DayOfYear(uw[1], uw[2], uw[3])>>, uw)
+          \o V("utcoffset", (IF aware THEN p.off = <<1, off>> ELSE p.off = <<0, 0>>), off)
+          \o (IF aware /\ s.z.n # "" THEN V("tzname", p.abbr = AbbrOf(s), AbbrOf(s)) ELSE <<>>)
+          \o V("date()", p.date = <<"Date", <<w[1], w[2], w[3]>> >>, "Date")
+          \o V("time()", p.time = <<"Time", <<w[4], w[5], w[6], w[7]>> >>, "Time")
+          \o V("types", p.badtypes = <<>>, "methods returning date/time/datetime objects return the pendulum types")
+          \o V("same-as-native", p.neq = <<>>, "every accessor equals the native object's")
+          \o (IF ClassOf(s) = "unique" THEN V("equals-native", p.eq_twin /\ p.hash_twin, "== and hash") ELSE <<>>))
+  ELSE IF x.k = "date" THEN
+     LET w == x.w  n == Ord(w[1], w[2], w[3]) IN
+     R(<<"date">>, V("isoformat", p.iso = RenderDate(w), RenderDate(w)) \o V("toordinal", p.ord = n, n)
+                   \o V("weekday", p.wd = Weekday(n) - 1, Weekday(n) - 1) \o V("isoweekday", p.iwd = Weekday(n), Weekday(n))
+                   \o V("isocalendar", p.isocal = IsoCal(n), IsoCal(n))
+                   \o V("types", p.badtypes = <<>>, "pendulum types") \o V("same-as-native", p.neq = <<>>, "native")
+                   \o V("equals-native", p.eq_twin /\ p.hash_twin, "== and hash"))
+  ELSE R(<<"time">>, V("types", p.badtypes = <<>>, "pendulum types") \o V("same-as-native", p.neq = <<>>, "native")
+                     \o V("isoformat", p.iso = RenderHMS(<<0, 0, 0, x.w[1], x.w[2], x.w[3], x.w[4]>>) \o (IF x.w[4] # 0 THEN <<cDot>> \o Pad6(x.w[4]) ELSE <<>>),
+                           "HH:MM:SS[.ffffff]")
+                     \o V("equals-native", p.eq_twin /\ p.hash_twin, "== and hash"))
+J_native_cmp(e) ==
+  LET a == Src(e)  bb == e.pre[2]  b == DT(bb.z, bb.w, bb.f)  p == e.post
+      sameTz == e.a.same_tzinfo
+      ambiguous == sameTz /\ (ClassOf(a) = "repeated" \/ ClassOf(b) = "repeated")
+      ia == InstOf(a)  ib == InstOf(b)
+      want == <<I3Lt(ia, ib), I3Le(ia, ib), I3Lt(ib, ia), I3Le(ib, ia), ia = ib, ia # ib>>
+      interZoneFold == ~sameTz /\ (ClassOf(a) = "repeated" \/ ClassOf(b) = "repeated")
+  IN IF IsNaive(a) # IsNaive(b) THEN R(<<"mixed-naive-aware">>, <<>>)
+     ELSE IF ClassOf(a) = "skipped" \/ ClassOf(b) = "skipped" THEN R(<<"ill-formed-operand">>, <<>>)
+     ELSE R(<<B(sameTz), ClassOf(a), ClassOf(b), B(ia = ib)>>,
+        (IF ambiguous THEN <<>>          \* CPython compares same-tzinfo values by wall clock (soundness rule 2)
+         ELSE IF interZoneFold THEN V("ordering-of-instants", SubSeq(p.pp, 1, 4) = SubSeq(want, 1, 4), want)   \* inter-zone == is False inside a fold
+         ELSE V("ordering-of-instants", p.pp = want, want))
+        \o V("same-as-native", p.pp = p.nn, p.nn)
+        \* pendulum value against the native twin: two different tzinfo objects, so CPython orders by instant
+        \o (IF IsNaive(a) THEN V("mixed-same-as-native", p.pn = p.nn, p.nn)
+            ELSE V("mixed-ordering-of-instants", SubSeq(p.pn, 1, 4) = SubSeq(want, 1, 4), want))
+        \o (IF ambiguous THEN <<>> ELSE V("subtraction", p.sub = I3Diff(ia, ib), I3Diff(ia, ib)))
+        \* native subtraction of two values sharing a tzinfo is a wall-clock difference: the twin clause applies
+        \* where that and the elapsed time (C05) coincide
+        \o (IF IsNaive(a) \/ ZRef(a.z) # ZRef(b.z) \/ OffOf(a) = OffOf(b)
+            THEN V("subtraction-same-as-native", p.sub = p.nsub, p.nsub) ELSE <<>>))
+
 \* ---- C15 -----------------------------------------------------------------------------
 J_year_prims(e) == LET y == e.a.y IN
    R(<<B(IsLeap(y)), B(IsLongYear(y))>>,
@@ -729,6 +787,8 @@ Judge(e) == CASE e.op = "in_tz" -> J_in_tz(e)
               [] e.op = "from_format" -> J_from_format(e)
               [] e.op = "humanize" -> J_humanize(e)
               [] e.op = "in_words" -> J_in_words(e)
+              [] e.op = "native_acc" -> J_native_acc(e)
+              [] e.op = "native_cmp" -> J_native_cmp(e)
               [] e.op = "year_prims" -> J_year_prims(e)
               [] e.op = "year_weekdays" -> J_year_weekdays(e)
               [] e.op = "year_getters" -> J_year_getters(e)
